@@ -32,34 +32,38 @@ inductive Cover where
     change of a loop body, and any new site, makes `uncoveredRanges` non-empty. -/
 def coveredRanges : List (RangeSite × Cover) := [
   ({ pkg := "app", fn := "GetMaccPerms", operand := "maccPerms", key := "string", val := "[]string",
-     calls := [], exits := [] },
+     calls := [], exits := [], next := "return modAccPerms" },
    .noState "copies a map into a map (insertion order irrelevant)"),
   ({ pkg := "app", fn := "SifchainApp.ModuleAccountAddrs", operand := "maccPerms", key := "string", val := "[]string",
-     calls := ["authtypes.NewModuleAddress().String", "authtypes.NewModuleAddress"], exits := [] },
+     calls := ["authtypes.NewModuleAddress().String", "authtypes.NewModuleAddress"], exits := [], next := "return modAccAddrs" },
    .noState "builds the blocked-address map (insertion order irrelevant)"),
+  -- after repair F15 the epoch payout loop runs over the SORTED assets; the map is only ranged to collect its keys
   ({ pkg := "x/clp/keeper", fn := "Keeper.AfterEpochEnd", operand := "rewardsEligibleLps", key := "types.Asset", val := "[]*types.LiquidityProvider",
-     calls := ["k.GetRewardsBucket", "k.Logger().Info", "k.Logger", "fmt.Sprintf", "k.CalculateRewardShareForLiquidityProviders", "k.CalculateRewardAmountForLiquidityProviders", "k.ShouldDistributeRewardsToLPWallet", "k.DistributeLiquidityProviderRewards", "ctx.Logger().Error", "ctx.Logger", "ErrUnableToDistributeLPRewards.Error", "k.AddRewardAmountToLiquidityPool", "ctx.Logger().Error", "ctx.Logger", "ErrUnableToAddRewardAmountToLiquidityPool.Error", "RewardAmount.Add", "sdk.NewCoin", "k.SetLiquidityProvider", "k.GetPool", "ctx.Logger().Error", "ctx.Logger", "ErrPoolDoesNotExist.Error", "RewardAmountExternal.Add", "sdk.NewUintFromBigInt", "Amount.BigInt", "k.SetPool", "ctx.Logger().Error", "ctx.Logger", "ErrUnableToSetPool.Error"], exits := [] },
-   .thm "epoch_assets_perm"),
+     calls := ["append"], exits := [], next := "sort.Slice(assets, func(i, j int) bool { return assets[i].Symbol < assets[j].Symbol })" },
+   .noState "collects the map keys; the very next statement sorts them by symbol and the payout loop ranges over the sorted slice (repair F15; before it: epoch_assets_perm + its counterexample)"),
   ({ pkg := "x/clp/keeper", fn := "Keeper.DistributeDepthRewards", operand := "poolRowanMap", key := "*types.Pool", val := "types.Uint",
-     calls := ["poolRowanMapSum.Add"], exits := [] },
+     calls := ["poolRowanMapSum.Add"], exits := [],
+     next := "if !coinsToMint.Equal(poolRowanMapSum) { k.Logger(ctx).Info(fmt.Sprintln(\"coinsToMint\", coinsToMint.String(), \" != poolR" },
    .thm "poolRowanMap_sum_perm"),
   ({ pkg := "x/clp/keeper", fn := "Keeper.DistributeDepthRewards", operand := "poolRowanMap", key := "*types.Pool", val := "types.Uint",
-     calls := ["rowan.Equal", "sdk.ZeroUint", "RewardPeriodNativeDistributed.Add", "k.SetPool"], exits := [] },
+     calls := ["rowan.Equal", "sdk.ZeroUint", "RewardPeriodNativeDistributed.Add", "k.SetPool"], exits := [], next := "" },
    .thm "rewards_poolUpdate_perm"),
   ({ pkg := "x/clp/keeper", fn := "Keeper.TransferProviderDistribution", operand := "poolRowanMap", key := "*types.Pool", val := "types.Uint",
-     calls := ["k.RemoveRowanFromPool"], exits := [] },
+     calls := ["k.RemoveRowanFromPool"], exits := [], next := "" },
    .thm "lppd_poolUpdate_perm"),
+  -- after repair F15 the payout loop runs over the SORTED addresses; the map is only ranged to collect its keys
   ({ pkg := "x/clp/keeper", fn := "Keeper.TransferProviderDistributionGeneric", operand := "lpRowanMap", key := "string", val := "types.Uint",
-     calls := ["sdk.AccAddressFromBech32", "sdk.NewCoin", "sdk.NewIntFromBigInt", "totalRowan.BigInt", "bankKeeper.SendCoinsFromModuleToAccount", "sdk.NewCoins", "fireLPPayoutErrorEvent", "_.Sub", "fireDistributeSuccessEvent"], exits := [] },
-   .thm "transfer_perm"),
+     calls := ["append"], exits := [], next := "sort.Strings(lpAddresses)" },
+   .noState "collects the map keys; the very next statement sorts them and the payout loop ranges over the sorted slice (repair F15; before it: transfer_perm + its counterexample)"),
   ({ pkg := "x/clp/keeper", fn := "PoolRowanMapToLPPools", operand := "poolRowanMap", key := "*types.Pool", val := "types.Uint",
-     calls := ["append"], exits := [] },
+     calls := ["append"], exits := [], next := "return arr" },
    .noState "slice in map order, used only for the `amounts` attribute of the rewards event (events are not part of the app hash nor of the compared DeliverTx fields)"),
   ({ pkg := "x/ethbridge/types", fn := "MapOracleClaimsToEthBridgeClaims", operand := "oracleValidatorClaims", key := "string", val := "string",
-     calls := ["sdk.ValAddressFromBech32", "sdkerrors.Wrap", "fmt.Sprintf", "f"], exits := ["return", "return"] },
+     calls := ["sdk.ValAddressFromBech32", "sdkerrors.Wrap", "fmt.Sprintf", "f"], exits := ["return", "return"], next := "" },
    .noState "only called by the gRPC query handler (x/ethbridge/keeper/grpc_query.go); query answers are not consensus state"),
+  -- the body with the F2 repair (`inWhiteList`): only then are the counted powers bounded by the total
   ({ pkg := "x/oracle/types", fn := "Prophecy.FindHighestClaim", operand := "prophecy.ClaimValidators", key := "string", val := "[]types.ValAddress",
-     calls := ["int64", "fmt.Printf", "validatorAddr.String", "validatorAddr.String", "validator.GetConsensusPower", "fmt.Printf", "fmt.Printf"], exits := [] },
+     calls := ["int64", "fmt.Printf", "validatorAddr.String", "validatorAddr.String", "inWhiteList", "validator.GetConsensusPower", "fmt.Printf", "fmt.Printf"], exits := [], next := "" },
    .thm "tally_perm_invariant")
 ]
 
